@@ -452,13 +452,14 @@ PROPS = {
     ),
     "C02": dict(
         lean="AnyDB.Props.C02",
+        lean_extra=["AnyDB.Props.C02Run"],
         runs=[
             Run("rawdb", "layout", [], (240, 60), (4000, 250), proj_c02, ["C02", "panic"], rawdb_features),
             Run("rawdb", "refusals", ["--malformed"], (80, 40), (1500, 120), proj_c02, ["C02", "panic"], rawdb_features),
         ],
         rule=RAWDB_RULE,
         assumptions=["Layout accessors pending_holes/start_to_reserved exposed by the verif_hooks feature (read-only)"],
-        level_text="Lean 4 theorems, unbounded in list length and sizes, for the allocator: promotion of deferred holes keeps the free list positive, pairwise disjoint and merged, covers exactly old free bytes + promoted bytes and stays disjoint from everything the inputs were disjoint from (C02_promote); hole split (C02_split); best fit (C02_best_fit); placement reuses free space and does not grow the file whenever an adequate hole exists, for relocation and for creation (C02_place_reuses, C02_place_end, C02_create_reuses); the file growth rule (C02_growth); flush leaves no deferred hole (C02_flush_promotes). The whole-database invariant over complete histories is checked on the implementation's real layout after every request by an independent checker and the model's layout is compared field by field with the real one (regions, holes, pending, reservations, file length, Layout::len); its Lean composition per placement path is the part still open.",
+        level_text="Lean 4 theorems, unbounded in list length and sizes, for the allocator: promotion of deferred holes keeps the free list positive, pairwise disjoint and merged, covers exactly old free bytes + promoted bytes and stays disjoint from everything the inputs were disjoint from (C02_promote); hole split (C02_split); best fit (C02_best_fit); placement reuses free space and does not grow the file whenever an adequate hole exists, for relocation and for creation (C02_place_reuses, C02_place_end, C02_create_reuses); the file growth rule (C02_growth); flush leaves no deferred hole (C02_flush_promotes). The whole-database invariant over complete histories is proved too (Props/C02Run.lean, Lemmas/Layout*.lean, AllocCnt.lean): LInv — no byte of the file in two extents (region reservations, relocation targets, holes, pending holes), all extents positive, start map = slots — is preserved by EVERY operation of the model from ANY state satisfying it (metadata/data-only operations keep the layout view; remove/retain; flush with promotion and merging; compact; the three growing paths of write_with incl. is_last_anything ⇒ nothing claimed behind, and relocation with its reservation; create), hence C02_history_partial: after every sequence of operations from the empty database without a panicking operation and without reopen, no byte belongs to two extents, everything claimed ends at or before Layout::len, and two live regions never share a byte. Open: reopen (Layout::from over the metadata file) and the accounting half (every byte below Layout::len in EXACTLY one extent — proved is 'at most one'); both are checked on the implementation's real layout after every request by an independent checker, and the model's layout is compared field by field with the real one (regions, holes, pending, reservations, file length, Layout::len).",
         level_note="Trusted: Lean kernel + standard axioms; hand-written model (Model/Rawdb.lean) tied to /repo by differential run + extractor; the guarded read-only Layout accessors. Modelled rather than verified: layout.rs, region.rs write_with, lib.rs create/set_min_len/flush.",
         technique="Lean 4 proof of allocator invariants (induction over the pending-hole list) + full-layout lock-step correspondence + independent invariant checker on the real layout",
     ),
